@@ -479,7 +479,10 @@ def gen_case(rng, shape=None):
             reads.append({"op": "creator", "o": c, "oform": "dict"})
     if rng.random() < 0.5 and has_members(src):
         reads += gen_sequence(rng, src, pop, nodes, ids)
-    return {"kind": "c18", "src": src, "steps": reads, "shape": shape}
+    case = {"kind": "c18", "src": src, "steps": reads, "shape": shape}
+    if rng.random() < 0.15:
+        case["tz"] = rng.choice(["JST-9", "EST5EDT", "NST3:30NDT"])      # the worker process in another POSIX zone
+    return case
 
 
 def witness_case():
